@@ -225,29 +225,37 @@ def probe_times(ad, extra=()):
 
 
 def step_boundaries(ad):
-  """Absolute begin/end ticks of all animation steps, resolved against the carrying element's OWN interval (naive
-  computation, used only to describe a failing case, never to judge one)."""
+  """Absolute begin/end ticks of all animation steps as triples (resolved against the carrying element's OWN interval,
+  resolved against its PARENT's interval, element has a non-zero begin offset).  Naive computation, used only to describe a
+  failing case (known-finding selector), never to judge one."""
   n = ad["n"]
   ab = [0] * n
   ae = [NONE_T] * n
-  out = set()
+  out = []
+
+  def clip(x, lim):
+    return x if lim == NONE_T else min(x, lim)
+
   for k in range(n):
     p = ad["parent"][k]
     pb = ab[p - 1] if p else 0
     pe = ae[p - 1] if p else NONE_T
-    ab[k] = pb + (ad["b"][k] if ad["b"][k] != NONE_T else 0)
+    off = ad["b"][k] if ad["b"][k] != NONE_T else 0
+    ab[k] = pb + off
     own = pb + ad["e"][k] if ad["e"][k] != NONE_T else NONE_T
     ae[k] = own if pe == NONE_T else (pe if own == NONE_T else min(own, pe))
     steps = list(ad["anim"][k]) + [{"b": s[2], "e": s[3]} for s in (ad.get("anim_styles") or [[]] * n)[k]]
     for st in steps:
-      out.add(ab[k] + (st["b"] if st["b"] != NONE_T else 0))
+      sb = st["b"] if st["b"] != NONE_T else 0
+      out.append((ab[k] + sb, pb + sb, off != 0))
       if st["e"] != NONE_T:
-        out.add(ab[k] + st["e"] if ae[k] == NONE_T else min(ab[k] + st["e"], ae[k]))
+        out.append((clip(ab[k] + st["e"], ae[k]), clip(pb + st["e"], pe), off != 0))
   for r in range(ad["nr"]):
     rb = ad["rb"][r] if ad["rb"][r] != NONE_T else 0
     steps = list(ad["ranim"][r]) + [{"b": s[2], "e": s[3]} for s in (ad.get("ranim_styles") or [[]] * ad["nr"])[r]]
     for st in steps:
-      out.add(rb + (st["b"] if st["b"] != NONE_T else 0))
+      sb = st["b"] if st["b"] != NONE_T else 0
+      out.append((rb + sb, sb, rb != 0))
       if st["e"] != NONE_T:
-        out.add(rb + st["e"] if ad["re"][r] == NONE_T else min(rb + st["e"], ad["re"][r]))
+        out.append((clip(rb + st["e"], ad["re"][r]), st["e"], rb != 0))
   return out
